@@ -421,7 +421,7 @@ class Terms(object):
             if any(p[0] == "c" and isinstance(p[1], (bytes, str)) for p in parts) or a[0] == "CONCAT" or b[0] == "CONCAT":
                 return self.concat(parts)
         if op in _COMM:
-            a, b = sorted([a, b], key=repr)
+            a, b = sorted([a, b], key=crepr)
         return ("op", op, a, b)
 
     def mod32(self, x):
@@ -600,7 +600,7 @@ class Terms(object):
         if ext in ("builtins.int", "builtins.bytes", "builtins.bytearray", "builtins.str", "builtins.bool") and len(args) == 1 and not kws:
             return ("call", ext, tuple(args), ())
         if ext in ("builtins.min", "builtins.max") and args:
-            return ("call", ext, tuple(sorted(args, key=repr)), kws)
+            return ("call", ext, tuple(sorted(args, key=crepr)), kws)
         # constructor of a package class
         if cs is not None and cs.callees and len(cs.callees) == 1 and cs.callees[0].name == "__init__" and not isinstance(f, ast.Attribute) or \
                 (cs is not None and len(cs.callees) == 1 and cs.callees[0].name == "__init__" and isinstance(f, ast.Attribute) and not cs.recv_types):
@@ -697,6 +697,20 @@ class Terms(object):
                 for (q, attr) in (self.ctx.modsets.get(m) or ()):
                     if q == m.params[0] and attr.split(".")[0] in reads:
                         return False
+            # ... nor may it be built from such methods (find_allow_zeros = four find() look-ups)
+            busy = getattr(self, "_inl_busy", None)
+            if busy is None:
+                busy = self._inl_busy = set()
+            if callee not in busy:
+                busy.add(callee)
+                try:
+                    for x in walk_own(callee.node):
+                        if isinstance(x, ast.Call) and isinstance(x.func, ast.Attribute) and isinstance(x.func.value, ast.Name) and x.func.value.id == selfn:
+                            m2 = callee.cls.methods.get(x.func.attr)
+                            if m2 is not None and m2 is not callee and not self._inlinable(m2):
+                                return False
+                finally:
+                    busy.discard(callee)
         for cs in self.ctx.cg.sites.get(callee, []):
             if cs.ext and cs.ext.split(".")[0] in ("os", "socket", "time", "select", "asyncio", "io", "shutil", "subprocess"):
                 return False  # reads the environment: not a function of its arguments
@@ -796,6 +810,20 @@ def lin_sub(a, b):
     for k, v in y.items():
         out[k] = out.get(k, 0) - v
     return {k: v for k, v in out.items() if v}, cx - cy
+
+
+def crepr(t):
+    """Canonical text of a term: like repr(), but the elements of (frozen)sets are sorted, so the text does not depend on the
+    interpreter's hash seed.  Used wherever terms are ordered or compared as text."""
+    if isinstance(t, (frozenset, set)):
+        return "{" + ",".join(sorted(crepr(x) for x in t)) + "}"
+    if isinstance(t, tuple):
+        return "(" + ",".join(crepr(x) for x in t) + ")"
+    if isinstance(t, list):
+        return "[" + ",".join(crepr(x) for x in t) + "]"
+    if isinstance(t, dict):
+        return "{" + ",".join(sorted("%s:%s" % (crepr(k), crepr(v)) for k, v in t.items())) + "}"
+    return repr(t)
 
 
 def alts_of(t):
